@@ -47,18 +47,8 @@ FUNCS = [
 ]
 # module-level values read from the imported module: (key, module, expression evaluated in it)
 VALUES = [
-    ('re_DATE_PATTERN', 'spyne.model.primitive.datetime', 'DATE_PATTERN'),
-    ('re_TIME_PATTERN', 'spyne.model.primitive.datetime', 'TIME_PATTERN'),
-    ('re_OFFSET_PATTERN', 'spyne.model.primitive.datetime', 'OFFSET_PATTERN'),
-    ('re_DATETIME_PATTERN', 'spyne.model.primitive.datetime', 'DATETIME_PATTERN'),
-    ('re_DateTime_local', 'spyne.model.primitive.datetime', 'DateTime._local_re.pattern'),
-    ('re_DateTime_utc', 'spyne.model.primitive.datetime', 'DateTime._utc_re.pattern'),
-    ('re_DateTime_offset', 'spyne.model.primitive.datetime', 'DateTime._offset_re.pattern'),
-    ('re_Date_offset', 'spyne.model.primitive.datetime', 'Date._offset_re.pattern'),
-    ('re_inbase_date', 'spyne.protocol._inbase', '_date_re.pattern'),
-    ('re_inbase_time', 'spyne.protocol._inbase', '_time_re.pattern'),
+    # the date/time/uuid patterns are translated semantically by regexes.py (Gen/Regexes.v, coq/C08/RegexTie.v)
     ('re_inbase_duration', 'spyne.protocol._inbase', '_duration_re.pattern'),
-    ('re_UUID_PATTERN', 'spyne.model.primitive.string', 'UUID_PATTERN'),
     ('fmt_DateTime_dt_format', 'spyne.model.primitive.datetime', 'repr(DateTime.Attributes.dt_format)'),
     ('fmt_DateTime_out_format', 'spyne.model.primitive.datetime', 'repr(DateTime.Attributes.out_format)'),
     ('fmt_Date_date_format', 'spyne.model.primitive.datetime', 'repr(Date.Attributes.date_format)'),
